@@ -13,8 +13,8 @@ ASSUME = [
 ]
 RULE = ("driver family 'silent': register (with / without probing, unregister while probing or later), browse with one announcement then silence "
         "(TTL 2-120 s, goodbye, verify, stop), resolve_hostname with / without timeout, interface-check interval default / huge / 0 at start / 0 at run "
-        "time / 0 then 2 s / shortened, horizons 20 s .. 3 h (thorough: 7 h) under policy W; plus the respond, browse and resolve families (wake-up "
-        "checked at every park).")
+        "time / 0 then 2 s / shortened, horizons 20 s .. 3 h (thorough: 7 h) under policy W; plus the respond, browse, browsew (policy W), resolve and conflict "
+        "(lost tiebreaks, renames; each daemon's trace on its own) families (wake-up checked at every park).")
 
 
 def run(tier, seed, t0):
@@ -22,7 +22,9 @@ def run(tier, seed, t0):
             ("silent", [], "TraceBrowse", "TraceBrowse.cfg", 60, 600),
             ("respond", [], "TraceRespond", "TraceRespond.cfg", 80, 1500),
             ("browse", [], "TraceBrowse", "TraceBrowse.cfg", 40, 800),
-            ("resolve", [], "TraceBrowse", "TraceBrowse.cfg", 40, 800)]
+            ("resolve", [], "TraceBrowse", "TraceBrowse.cfg", 40, 800),
+            ("browsew", [], "TraceBrowse", "TraceBrowse.cfg", 40, 800),
+            ("conflict", [], "TraceRespond", "TraceRespond.cfg", 60, 800)]
     return daemon.run_group(PROP, tier, seed, t0, fams, "TraceBrowse", "TraceBrowse.cfg", PREFIXES,
                             [("MCSchedule", "MCSchedule.cfg")], ["C19.schedule", "C07.twice", "C09.repeat", "C11.refresh"], ASSUME, RULE)
 
